@@ -442,6 +442,54 @@ def mCertReq (has : Bool) (m : CertReq) : Bytes :=
     len2 (flatCAs m.certificateAuthorities).length ++ flatCAs m.certificateAuthorities
   13 :: len3 body.length ++ body
 
+/-! ### Conn.readHandshake: reassembly of a message from handshake records (conn.go)
+
+    for c.hand.Len() < 4 { readRecord }            -- one record at a time, appended to c.hand
+    n := data[1]<<16 | data[2]<<8 | data[3];  if n > maxHandshake { alert internal_error }
+    for c.hand.Len() < 4+n { readRecord }
+    data = c.hand.Next(4 + n);  switch data[0] { … default: alert unexpected_message };  unmarshal or unexpected_message
+  readRecord on a plaintext handshake record (no cipher yet): transport EOF at a record boundary → io.EOF; a record
+  above maxCiphertext → "oversized record"; before the version is known (`!haveVers`, i.e. while waiting for the
+  ClientHello) a record of 0x3000 bytes or more → "first record does not look like a TLS handshake"; plaintext above maxPlaintext → record_overflow. -/
+
+inductive HsErr
+  | eof | oversize | notTLS | alert (a : Nat)    -- notTLS: "first record does not look like a TLS handshake"
+  deriving DecidableEq, Repr
+
+/-- read records until `c.hand` holds at least `need` bytes; returns c.hand and the unread records -/
+def fillHand (haveVers : Bool) (need : Nat) : List Bytes → Bytes → Except HsErr (Bytes × List Bytes)
+  | [], hand => if hand.length ≥ need then .ok (hand, []) else .error .eof
+  | r :: rest, hand =>
+    if hand.length ≥ need then .ok (hand, r :: rest)
+    else if r.length > 16384 + 2048 then .error .oversize
+    else if !haveVers && r.length ≥ 0x3000 then .error .notTLS
+    else if r.length > 16384 then .error (.alert 22)
+    else fillHand haveVers need rest (hand ++ r)
+
+/-- the message bytes readHandshake hands to `unmarshal` (or the error), for the given records -/
+def readHandshakeBytes (haveVers : Bool) (records : List Bytes) : Except HsErr Bytes :=
+  match fillHand haveVers 4 records [] with
+  | .error e => .error e
+  | .ok (hand, rest) =>
+    let n := u24 (hand.getD 1 0) (hand.getD 2 0) (hand.getD 3 0)
+    if n > 65536 then .error (.alert 80)
+    else match fillHand haveVers (4 + n) rest hand with
+      | .error e => .error e
+      | .ok (hand2, _) => .ok (hand2.take (4 + n))
+
+/-- what readHandshake must return as a function of the BYTES alone (no record boundaries) -/
+def hsSpec (data : Bytes) : Except HsErr Bytes :=
+  if data.length < 4 then .error .eof
+  else
+    let n := u24 (data.getD 1 0) (data.getD 2 0) (data.getD 3 0)
+    if n > 65536 then .error (.alert 80)
+    else if data.length < 4 + n then .error .eof
+    else .ok (data.take (4 + n))
+
+/-- records that trip none of readRecord's size rules -/
+def recordsOK (haveVers : Bool) (rs : List Bytes) : Bool :=
+  rs.all fun r => decide (r.length ≤ 16384) && (haveVers || decide (r.length < 0x3000))
+
 /-! ### wire-format limits (decidable; hypotheses of the round-trip theorems, evaluated by the driver) -/
 
 def strsOK (l : List Bytes) : Bool := l.all fun s => decide (0 < s.length) && decide (s.length ≤ 255)
